@@ -37,8 +37,28 @@ let str_event = function
   | ESite b -> "site" ^ pm b | EPre -> "pre" | ESrv -> "srv"
   | ESetupRaised e -> "SR:" ^ str_err e | ECleanupRaised e -> "CR:" ^ str_err e
 let str_log l = if l = [] then "-" else String.concat " " (List.map str_event l)
+(* SHUT <t> <s> <abs0> <phase>            -> closed=<ms|never> handler=<none|done@ms|cancel@ms|stuck>
+   LATE <t> <s> <abs0> <phase> <delta>    -> 0|1
+   RET  <t> <s> <abs0> <phase> ...        -> <ms>|never
+   phase: idle | h<ms> | hinf | u<ms> | uinf ; all times in integral milliseconds *)
+let zi s = z_of_int (int_of_string s)
+let phase_of_string s =
+  if s = "idle" then PIdle
+  else if s = "hinf" then PHandling None
+  else if s = "uinf" then PUpload None
+  else let v = zi (String.sub s 1 (String.length s - 1)) in
+    (match s.[0] with 'h' -> PHandling (Some v) | 'u' -> PUpload (Some v) | _ -> failwith ("bad phase " ^ s))
+let cfg_of t s a = { t_ms = zi t; s_ms = zi s; abs0 = zi a }
+let zs z = string_of_int (int_of_z z)
+let str_outcome o =
+  "closed=" ^ (match o.closed_at with None -> "never" | Some a -> zs a) ^ " handler=" ^
+  (match o.handler with HNone -> "none" | HCompleted a -> "done@" ^ zs a | HCancelled a -> "cancel@" ^ zs a | HStuck -> "stuck")
 let handle line =
   match words line with
+  | ["SHUT"; t; s; a; p] -> str_outcome (conn_outcome (cfg_of t s a) (phase_of_string p))
+  | ["LATE"; t; s; a; p; d] -> string_of_bool_01 (late_accepted (cfg_of t s a) (phase_of_string p) (zi d))
+  | "RET" :: t :: s :: a :: ps ->
+    (match server_shutdown_returns (cfg_of t s a) (List.map phase_of_string ps) with None -> "never" | Some r -> zs r)
   | "LIFE" :: d :: fails :: tree ->
     let fl = if fails = "-" then [] else List.map step_of_string (String.split_on_char ',' fails) in
     let f s = List.mem s fl in
